@@ -1585,10 +1585,11 @@ PROPS['C15'] = dict(
 )
 
 PROPS['C11'] = dict(
-    module='FlacModel.Props.C11',
+    module='FlacModel.Props.C11b',
     theorems=['Flac.C11.streaminfo_roundtrip', 'Flac.C11.seektable_roundtrip', 'Flac.C11.vorbis_roundtrip', 'Flac.C11.picture_roundtrip', 'Flac.cue_roundtrip',
               'Flac.C11.body_roundtrip', 'Flac.C11.block_roundtrip', 'Flac.C11.blocklist_roundtrip', 'Flac.C11.reported_size_eq_written',
-              'Flac.C11.body_no_panic', 'Flac.C11.seektable_single', 'Flac.C11.md5_some_zero_not_roundtrip'],
+              'Flac.C11.body_no_panic', 'Flac.C11.seektable_single', 'Flac.C11.md5_some_zero_not_roundtrip',
+              'Flac.C11.parseBody_sound', 'Flac.C11.parseCue_sound', 'Flac.C11.readBlock_sound', 'Flac.C11.read_then_write_then_read'],
     components=[BlocksWrite(), BlocksRead()],
     rule='block lists as literals built through the public constructors: every block kind alone at its extremes (1-bit and 32-bit STREAMINFO, out-of-range fields, all-zero MD5, 2^24-1 byte padding/application/'
          'comment/picture bodies and one byte more, seek tables with placeholders and offsets at 2^64-2 / 2^64-1, arbitrary UTF-8 comments, CD-DA and non-CD-DA cue sheets at 99/254 tracks and 100/255 index points and '
@@ -1599,7 +1600,7 @@ PROPS['C11'] = dict(
           '(cue_roundtrip by induction over tracks and index points, vorbis/seektable by induction over fields/points, STREAMINFO by 144-bit arithmetic). reported_size_eq_written: bytes() = body bytes written, total = +4. '
           'body_no_panic: the writer\'s unwraps (8-bit track and index counts, 1-bit depth) cannot fail on admitted values (uses the regenerated limits 99/254/100/255). seektable_single: two SEEKTABLEs are refused. '
           'md5_some_zero_not_roundtrip: the recorded known finding, proved as a negative witness.',
-    note='The reverse direction (bytes accepted by the reader can be written again and re-read equal) is decided by the BlocksRead correspondence and oracle, not yet by a theorem. '
+    note='read_then_write_then_read: the converse - ANY byte sequence the reader accepts yields a list the writer accepts (every parsed block satisfies blockWf and is re-serialised to exactly the size that was read: parseBody_sound for all seven kinds) and reading the writer\'s output returns an equal list. '
          'The model of the block codec is hand-written; limits, type codes, padding widths and the fix-shaped facts (ISRC length rule, catalog length rule, u64::MAX seek point rule, index capacity) are regenerated from the source.',
     trusted_base=COMMON_TRUST,
     assumptions=['bitstream-io read_to_vec / LimitedReader semantics as modelled by takeBytes (EOF when the declared size exceeds what is left)'],
